@@ -60,8 +60,14 @@ fn drive<Q: ErrorQueue>(rng: &mut Rng, ctx: &mut Ctx, q: &mut Q, cap: Option<usi
             0..=4 => 0,
             5..=7 => 1,
             8 => 2,
+            // a growable queue in a long history builds up a backlog of hundreds to thousands of unread entries
+            // (almost never cleared): it has no capacity, so nothing may be dropped or marked at any length
+            _ if mode == Mode::Long && cap.is_none() => if rng.chance(1, 400) { 3 } else { 0 },
             _ => if rng.chance(1, 4) { 3 } else { 2 },
         };
+        if r.len() >= 256 {
+            ctx.count("steps.with-256-or-more-unread");
+        }
         h = mix(h, op as u64 * 4 + full as u64 * 2 + (r.len() == 0) as u64);
         match op {
             0 => {
